@@ -60,6 +60,9 @@ FAULTS = [
     ('an_unresolvable_label', '.2byte nowhere_defined'),
     ('an_unresolvable_label', 'ld16 missing + 1'),
     ('an_unresolvable_label', '.fill 2, undefined_value'),
+    ('an_unresolvable_label', '.fill 0, undefined_value'),
+    ('an_unresolvable_label', '.fill z, undefined_value + 1'),
+    ('an_unresolvable_label', '.zero undefined_count'),
     ('a_statement_no_variant_accepts', 'ld8'),
     ('a_statement_no_variant_accepts', 'ld8 1, 2'),
     ('a_statement_no_variant_accepts', 'nop 5'),
